@@ -541,3 +541,25 @@ def dev_dump(prop, case, res) -> None:
         from vf.core import jhash
         with open(os.path.join(ddir, f'{prop}-{jhash(case)}.json'), 'w') as f:
             json.dump({'property': prop, 'case': case}, f)
+
+
+SPIN_MSG = 'harness: scheduler spinning on empty pool'
+
+
+def harness_spin(sim) -> bool:
+    """The engine aborted the run because the scheduler looped inside one
+    call (reload's "wait for preparing tasks", shutdown's "wait for the
+    process pool") with nothing left that could make progress.  The engine
+    cannot continue such a run; the case is counted inconclusive."""
+    for exc in (sim.crashed, sim.shutdown_reason):
+        if isinstance(exc, RuntimeError) and SPIN_MSG in str(exc):
+            return True
+    return any(e.get('k') == 'cmd' and SPIN_MSG in str(e.get('err'))
+               for e in sim.trace)
+
+
+def crash_violations(sc, prop):
+    """sc.crash_violations(prop) without the engine's own spin abort."""
+    if harness_spin(sc.sim):
+        return []
+    return sc.crash_violations(prop)
